@@ -87,7 +87,7 @@ def plan(tier):
                    "prior_q_ge": ["Q=%d GE=%s" % (q, format(ge, "04b")) for q, ge in BACKGROUNDS],
                    "sel_ge": "all 16", "rotations": [0, 8, 16, 24], "saturation_positions": "all",
                    "bitfield": "boundary (lsb,width) subset" if tier == "quick" else "all 528 legal (lsb,width)",
-                   "shift_imm5": SHIFT_IMM5, "versions": [6, 7], "versions_mul_flag_rule": [4, 6, 7],
+                   "shift_imm5": SHIFT_IMM5, "versions": [6, 7], "versions_mul_flag_rule": [4, 5, 6, 7],
                    "divide": "ARMv7-R profile with SCTLR.DZ in {0,1} in addition",
                    "modes": ["svc", "usr", "fiq"] if tier == "quick" else ["svc", "usr", "fiq", "irq", "abt", "und", "sys"]},
         "exhaustive": True,
@@ -274,7 +274,7 @@ def run_shard(arg):
     pats = reg_patterns(row, info)
     bgs_full = backgrounds(info)
     flag_relevant = bgs_full is not None
-    vers_all = (6, 7, 4) if row.cls in V4_ROWS else (6, 7)
+    vers_all = (6, 7, 4, 5) if row.cls in V4_ROWS else (6, 7)     # ARMv4: C (and V) UNKNOWN after MULS / MLAS / long multiplies; ARMv5 and later: unchanged
     its_all = (0x00, 0xE8, 0xE4) if thumb16 else ((0x00, 0xE8) if row.iset == T32 else (0,))
     sec_budget = 300 if tier == "quick" else 3000
     tab = table()
